@@ -14,6 +14,10 @@ CLAIMED = {
    text="Deductive: System.privacyClass (both precedence loops, cache), Documentable.privacyClass and its override Module.privacyClass (behavioural subtyping), isVisible (recursive, against the documented 'hidden containers hide their members'), isPrivate and qnmatch.translate (token-by-token against the documented glob grammar, both loops with invariants and variants) are verified for all objects, rule lists and patterns; the privacy postcondition is the documented precedence taken from the property statement (exact rule over pattern rules, last rule wins, underscore default).",
    note="Assumed: Python's re gives each emitted regex fragment its documented meaning and qnmatch() = re match of translate() (bounded-validated each run against an independent matcher over all patterns<=3 x names<=3); R5 of C02 (equal qualified names have equal short names) on cache hits; str.replace facts; parse_privacy_tuple is checked natively only (bounded). Known finding KF-C13-main-module (module named __main__) is excluded from Module.privacyClass's obligations explicitly and reported as KNOWN-FINDING.",
    ref='6 C13'),
+ 'C19': dict(
+   text="Deductive: Visitor.visit, Visitor.depart (documented relative order of BEFORE/OUTTER/main/AFTER/INNER, pruning delayed until the extensions ran), Visitor.walkabout and Visitor.walk (recursive; ghost event trace) are verified against the documented walk W(n) = Open(n) ++ Body(n) ++ Close(n) for every tree, every assignment of pruning actions (an uninterpreted function of the node) and every list of extensions: balanced and nested enter/leave is the shape of the postcondition.",
+   note="Assumed: the main visitor's visit_X records its event and raises exactly the pruning action act(n), depart_X and extension methods record their event and return; get_children is pure and the structure is a tree. Not under contract yet: the ASTBuilder scope stack (push/pop) - covered by the bounded native harness only.",
+   ref='6 C19'),
  'C17': dict(
    text="Deductive: every obligation (postconditions, raises-only = exception freedom, loop invariants/variants, call preconditions, lemmas) generated from the current source of sphinx._parseInventoryLine, SphinxInventory._parseInventory/_getPayload/update/error and SphinxInventoryWriter._generateLine/_generateContent/error is discharged for all inputs by z3/cvc5; the reader/writer round trip is a lemma over the two contracts. Unbounded in line, payload, byte string and object tree.",
    note="Assumed: string-library axioms (split/join; bounded-validated against CPython each run), zlib/utf-8 inverse, logger does not raise, Documentable.fullName/url/isVisible as pure functions (verified under C02/C11/C12), Sphinx's own reader external. A bounded native evaluation of the same contracts on the real code (replay harness) runs as cross-check and as stand-in when an edit leaves the subset; it is labelled bounded and not counted as proved.",
